@@ -128,7 +128,10 @@ class AttackGraphNode:
         Arguments:
         attacker    - the attacker we are interested in
         """
-        return attacker in self.compromised_by
+        # Attackers are told apart by identity, two attackers with the same
+        # name, id and reached steps are still different attackers.
+        return any(compromising_attacker is attacker \
+            for compromising_attacker in self.compromised_by)
 
     def compromise(self, attacker: Attacker) -> None:
         """
